@@ -41,12 +41,13 @@ MTYPE_NAMES = {1: 'method_call', 2: 'method_return', 3: 'error', 4: 'signal'}
 RULE_KEYS = ['mtype', 'sender', 'interface', 'member', 'path', 'path_namespace', 'destination', 'args',
              'arg_paths', 'arg0namespace']
 
-IFACES = ['a.b', 'a.bc', 'a.b.c', 'org.x.Y']
-MEMBERS = ['M', 'Mm', 'N', 'Changed']
-PATHS = ['/', '/a', '/a/b', '/a/bc', '/a/b/c', '/aa/bb', '/aa/bbc', '/aa', '/aa/bb/cc', '/a/b/c/d']
+IFACES = ['a.b', 'a.bc', 'a.b.c', 'org.x.Y', 'A.b']
+MEMBERS = ['M', 'Mm', 'N', 'Changed', 'm']
+PATHS = ['/', '/a', '/a/b', '/a/bc', '/a/b/c', '/aa/bb', '/aa/bbc', '/aa', '/aa/bb/cc', '/a/b/c/d', '/A/b']
 DESTS = [':1.1', ':1.10', 'x.y', 'x.yz']
 SENDERS = [':1.5', 'x.y']
-STRVALS = ['x', 'xy', '', '/aa/bb', '/aa/bb/', '/aa/', '/aa/bbc', '/', '/aa', '/aa/bb/cc', 'a.b', '/aa/bb/cc/', "it's"]
+STRVALS = ['x', 'xy', '', '/aa/bb', '/aa/bb/', '/aa/', '/aa/bbc', '/', '/aa', '/aa/bb/cc', 'a.b', '/aa/bb/cc/', "it's",
+           'X', 'x ', '7', 'True', '1.5', 'a,b', 'a=b', 'a\\b']
 OTHER_BODY = [('i', 7), ('b', True), ('u', 0), ('d', 1.5), ('as', ['x']), ('ay', [120]), ('(s)', ['x']),
               ('a{ss}', {'x': 'x'}), ('x', 1 << 40), ('y', 47)]
 
@@ -182,7 +183,7 @@ def view(m, types=None):
             if isinstance(x, str):
                 vb.append(['str', str(x), t])
             else:
-                vb.append(['other', None, t])
+                vb.append(['other', str(x), t])
         body = vb
     mv = {'mtype': m._messageType, 'body': body}
     for a in ('path', 'interface', 'member', 'destination', 'sender'):
@@ -225,7 +226,7 @@ def gen_body(rng):
     r = rng.random()
     if r < 0.18:
         return None, None
-    n = rng.choice([1, 1, 2, 2, 3])
+    n = rng.choice([1, 1, 2, 2, 3, 3, 11, 13])
     sig, body = '', []
     for _ in range(n):
         q = rng.random()
@@ -267,6 +268,11 @@ def near(rng, pool, v):
     """A value from the pool different from v, preferring ones sharing a prefix with it."""
     if not isinstance(v, str):
         return rng.choice(pool)
+    if v and rng.random() < 0.3:
+        # differs only in case or in surrounding blanks
+        w = rng.choice([v.swapcase(), v.lower(), v.upper(), v + ' ', ' ' + v])
+        if w != v:
+            return w
     c = [p for p in pool if p != v and (p.startswith(v) or v.startswith(p))] or [p for p in pool if p != v]
     return rng.choice(c)
 
@@ -322,9 +328,11 @@ def gen_rule_for(rng, mv, p_key=0.35, p_miss=0.3):
     if rng.random() < p_key:
         args = []
         for _ in range(rng.choice([1, 1, 2])):
-            idx = rng.choice([0, 0, 1, 2, 3, 12])
+            idx = rng.choice([0, 0, 1, 2, 3, 10, 12]) if len(body) < 5 else rng.choice([0, 1, 5, 10, 10, 12, 1])
             if idx < len(body) and body[idx][0] == 'str' and not miss():
                 args.append([idx, body[idx][1]])
+            elif idx < len(body) and body[idx][0] == 'other' and rng.random() < 0.7:
+                args.append([idx, body[idx][1]])          # the str() of a non-string argument: must not match
             else:
                 base = body[idx][1] if idx < len(body) and body[idx][0] == 'str' else None
                 args.append([idx, near(rng, STRVALS, base)])
@@ -332,9 +340,11 @@ def gen_rule_for(rng, mv, p_key=0.35, p_miss=0.3):
     if rng.random() < p_key:
         aps = []
         for _ in range(rng.choice([1, 1, 2])):
-            idx = rng.choice([0, 0, 1, 2, 3])
+            idx = rng.choice([0, 0, 1, 2, 3]) if len(body) < 5 else rng.choice([0, 1, 10, 10, 12, 3])
             if idx < len(body) and body[idx][0] == 'str':
                 aps.append([idx, rng.choice(argpath_candidates(body[idx][1]))])
+            elif idx < len(body) and rng.random() < 0.5:
+                aps.append([idx, body[idx][1]])
             else:
                 aps.append([idx, rng.choice(STRVALS)])
         kw['arg_paths'] = aps
@@ -576,6 +586,47 @@ def stored_rule(r):
     return 'simple=%s attrs=%s' % (simple, attrs)
 
 
+def canon_stored(line):
+    """A stored rule up to the order of its entries (the order in which addMatch stores the constraints of a
+    conjunction is not observable through the property)."""
+    parts = line.split(' ')
+    out = []
+    for p in parts:
+        if '=' in p:
+            k, v = p.split('=', 1)
+            out.append(k + '=' + ';'.join(sorted(v.split(';'))))
+        else:
+            out.append(p)
+    return ' '.join(out)
+
+
+CLOSED_KEYS = ['type', 'sender', 'interface', 'member', 'path', 'path_namespace', 'destination', 'arg0namespace']
+
+
+def spec_meaning(text):
+    """The constraints a rule text means (specification keys; argN / argNpath with decimal N), as the sorted
+    list of 'key=<hex value>' - or None when the text is not a rule or names an unknown key."""
+    p = spec_parse_rule(text)
+    if p is None:
+        return None
+    out = []
+    for k, v in p:
+        if k in CLOSED_KEYS:
+            out.append('%s=%s' % (k, hx(v)))
+        elif k.startswith('arg'):
+            r = k[3:]
+            suffix = ''
+            if r.endswith('path'):
+                r, suffix = r[:-4], 'path'
+            if r and all(c in '0123456789' for c in r):
+                out.append('arg%d%s=%s' % (int(r), suffix, hx(v)))
+            else:
+                return None
+        else:
+            return None
+    return sorted(out)
+
+
 def make_connection():
     """A DBusClientConnection that finished its handshake and its Hello, on a StringTransport."""
     from twisted.internet.testing import StringTransport
@@ -718,11 +769,18 @@ def stream_pairs(ctx, cases, label):
         ctx.stat('pairs:%s:%s' % (label, outcome))
         ctx.stat('msg-kind:' + spec['kind'])
         ctx.stat('rule-keys:%d' % len(clean_kw(kw)))
+        idxs = [i_ for i_, _ in (kw.get('args') or [])] + [i_ for i_, _ in (kw.get('arg_paths') or [])]
+        if any(i_ >= 10 for i_ in idxs):
+            ctx.stat('two-digit-index' + (':invoked' if called else ''))
+        if called and any(i_ > 0 for i_ in idxs):
+            ctx.stat('positive-match-at-index>0')
+        if called and len(clean_kw(kw)) >= 3:
+            ctx.stat('positive-match-with>=3-keys')
         for k in clean_kw(kw):
             ctx.stat('rule-key:' + k)
         if out is not None:
             m_stored, m_out, m_spec = out[3 * i], out[3 * i + 1], out[3 * i + 2]
-            if m_stored != stored:
+            if canon_stored(m_stored) != canon_stored(stored):
                 ctx.disagree('mkrule', {'rule': clean_kw(kw)}, m_stored, stored)
             # the model separates "returned quietly" from "raised and logged"; compare the invocation,
             # keep the logging difference as a statistic (a guard that avoids the exception is harmless)
@@ -1024,21 +1082,30 @@ def canon_text(text):
 
 def text_judgeable(kw):
     """The rule-text clause is judged for rules whose matching is judged (no empty constraint value among the
-    simple keys) and whose values need no escaping (no apostrophe, no backslash)."""
+    simple keys) and whose values need no escaping (no apostrophe)."""
     for k in ('mtype', 'interface', 'member', 'path', 'destination', 'path_namespace', 'sender', 'arg0namespace'):
         if kw.get(k) == '':
             return False
     vals = [v for k, v in kw.items() if isinstance(v, str)]
     for k in ('args', 'arg_paths'):
         vals += [s for _, s in (kw.get(k) or [])]
-    return all(c not in v for v in vals for c in "'\\")
+    return all("'" not in v for v in vals)
+
+
+def check_meaning(ctx, text, model_line):
+    """Python reading of a rule text (spec_meaning) against Lean's Spec.ruleTextMeaning."""
+    want = spec_meaning(text)
+    got = None if model_line == 'none' else ([] if model_line == '.' else sorted(model_line.split(';')))
+    ctx.case('oracle-vs-spec', sample=None)
+    if want != got:
+        ctx.disagree('oracle-vs-spec', {'stream': 'bus-parse', 'text': text}, model_line, want, detail='meaning of a rule text')
 
 
 def judge_text(ctx, kw, text):
     """'The rule text sent to the bus daemon expresses the same constraints': read the text with the
     specification's grammar and compare the constraints (as a multiset)."""
     if not text_judgeable(kw):
-        ctx.stat('rule-text:not-judged(empty value, apostrophe or backslash)')
+        ctx.stat('rule-text:not-judged(empty value or apostrophe)')
         return
     got = spec_parse_rule(text)
     want = text_constraints(kw)
@@ -1274,6 +1341,8 @@ def bus_add(text):
         return 'valueerror', None, b, peer
     except KeyError as e:
         return 'keyerror', None, b, peer
+    except Exception as e:
+        return 'error:' + type(e).__name__, None, b, peer
     return 'ok', captured[0], b, peer
 
 
@@ -1302,7 +1371,9 @@ def stream_text(ctx, rules, malformed):
             status, bkw, b, peer = bus_add(text)
             lines.append('render ' + enc_rule(kw))
             lines.append('parse ' + hx(text))
+            lines.append('meaning ' + hx(text))
             obs.append((kw, text, status, bkw, b, peer))
+            judge_text(ctx, kw, text)
         out = ctx.model(lines)
         for i, (kw, text, status, bkw, b, peer) in enumerate(obs):
             inp = {'stream': 'rule-text', 'rule': clean_kw(kw)}
@@ -1310,13 +1381,16 @@ def stream_text(ctx, rules, malformed):
             impl_parse = canon_bus_kwargs(bkw) if status == 'ok' else status
             ctx.stat('rule-text:bus-%s' % status)
             if out is not None:
-                if canon_text(unhx(out[2 * i])) != canon_text(text):
-                    ctx.disagree('rule-text', inp, unhx(out[2 * i]), text)
-                if out[2 * i + 1] != impl_parse:
-                    ctx.disagree('rule-text', inp, out[2 * i + 1], impl_parse, detail='bus parse of the client text')
+                if canon_text(unhx(out[3 * i])) != canon_text(text):
+                    ctx.disagree('rule-text', inp, unhx(out[3 * i]), text)
+                if out[3 * i + 1] == 'outofdomain':
+                    ctx.stat('bus-parse:outofdomain')
+                elif out[3 * i + 1] != impl_parse:
+                    ctx.disagree('rule-text', inp, out[3 * i + 1], impl_parse, detail='bus parse of the client text')
+                check_meaning(ctx, text, out[3 * i + 2])
             # ---- oracle: the rule the bus registered from the client's text selects the same signals
             if status == 'ok' and text_judgeable(kw):
-                for spec in PROBE_SPECS:
+                for spec in PROBE_SPECS + derived_specs(kw):
                     m = build_message(spec)
                     mv = view(m)
                     v, failing = oracle_matches(kw, mv)
@@ -1343,16 +1417,19 @@ def stream_text(ctx, rules, malformed):
         for text in malformed:
             status, bkw, b, peer = bus_add(text)
             lines.append('parse ' + hx(text))
+            lines.append('meaning ' + hx(text))
             obs.append((text, canon_bus_kwargs(bkw) if status == 'ok' else status))
         out = ctx.model(lines)
         for i, (text, impl_parse) in enumerate(obs):
             ctx.case('bus-parse', sample={'text': text})
             ctx.stat('bus-parse:' + impl_parse.split(' ')[0])
-            if out is not None and out[i] != impl_parse:
-                if out[i] == 'outofdomain':
+            if out is not None:
+                check_meaning(ctx, text, out[2 * i + 1])
+            if out is not None and out[2 * i] != impl_parse:
+                if out[2 * i] == 'outofdomain':
                     ctx.stat('bus-parse:outofdomain')
                     continue
-                ctx.disagree('bus-parse', {'stream': 'bus-parse', 'text': text}, out[i], impl_parse)
+                ctx.disagree('bus-parse', {'stream': 'bus-parse', 'text': text}, out[2 * i], impl_parse)
     finally:
         router.log = saved
 
@@ -1361,13 +1438,60 @@ PROBE_SPECS = [SIG(), SIG(path='/a/bc'), SIG(path='/a/b/c'), SIG(interface='a.bc
                SIG(signature='s', body=['x']), SIG(signature='s', body=['/aa/bb']), SIG(signature='s', body=['/aa/bbc']),
                SIG(signature='s', body=['/aa/']), SIG(signature='ss', body=['x', '/aa/bb/']),
                SIG(path='/aa/bb', destination=':1.1'), SIG(path='/aa/bbc', signature='i', body=[7]),
-               {'kind': 'error', 'destination': ':1.1', 'sender': None, 'signature': None, 'body': None}]
+               {'kind': 'error', 'destination': ':1.1', 'sender': None, 'signature': None, 'body': None},
+               SIG(signature='s' * 13, body=['x', '/aa/bb', '/aa/', 'xy', 'x', 'x', 'x', 'x', 'x', 'x', '/aa/bb', 'x', '/aa/bb/']),
+               SIG(signature='sis', body=['7', 7, 'True'])]
+
+
+def derived_specs(kw):
+    """Signals built from a rule: one that satisfies it, and near-misses a sloppy reading of the rule text
+    would confuse with it (value at the index named by the first digit only; values without their
+    surrounding blanks; values in the other case)."""
+    base = SIG()
+    for k in ('interface', 'member', 'path', 'destination'):
+        if kw.get(k):
+            base[k] = kw[k]
+    if kw.get('path_namespace') and not kw.get('path'):
+        base['path'] = kw['path_namespace']
+    pairs = [(i, v) for i, v in (kw.get('args') or [])] + [(i, v) for i, v in (kw.get('arg_paths') or [])]
+    pairs = [(i, v) for i, v in pairs if i < 64]
+    n = max([i for i, _ in pairs] + [-1]) + 1
+
+    def with_body(place, conv):
+        d = dict(base)
+        if n:
+            body = ['q'] * n
+            for i, v in pairs:
+                body[place(i)] = conv(v)
+            d['signature'] = 's' * n
+            d['body'] = body
+        for k in ('interface', 'member', 'path', 'destination'):
+            if isinstance(d.get(k), str):
+                d[k] = conv(d[k]) if conv(d[k]) else d[k]
+        return d
+    cands = [with_body(lambda i: i, lambda v: v),
+             with_body(lambda i: int(str(i)[0]), lambda v: v),
+             with_body(lambda i: i, lambda v: v.strip()),
+             with_body(lambda i: i, lambda v: v.swapcase())]
+    out, seen = [], set()
+    for d in cands:
+        key = json.dumps(d, sort_keys=True)
+        if key in seen:
+            continue
+        seen.add(key)
+        try:
+            build_message(d)
+        except Exception:
+            continue
+        out.append(d)
+    return out
 
 
 def gen_malformed(rng):
     keys = ['type', 'mtype', 'sender', 'interface', 'member', 'path', 'path_namespace', 'destination',
             'arg0', 'arg1', 'arg12', 'arg007', 'arg0path', 'arg3path', 'argpath', 'arg', 'argx', 'argxpath',
-            'arg0namespace', 'eavesdrop', 'x', '', 'arg1x', 'arg0paths']
+            'arg0namespace', 'eavesdrop', 'x', '', 'arg1x', 'arg0paths', 'arg10path', 'arg63path', 'arg12path',
+            'arg10', 'arg+1', 'arg 1', 'arg1_0', 'arg-1', 'arg\uff11', 'arg1 path', 'arg+1path', 'Type', ' type']
     vals = ["'x'", "''", "'", "", "x", "'/a/b'", "'a=b'", "'a,b'", "'it's'", "\"x\"", "'/aa/'", "'x' "]
     n = rng.choice([0, 1, 1, 2, 3])
     items = []
@@ -1555,10 +1679,11 @@ def run_proxy_scenario(ctx, sc):
         for x in sent:
             c.dataReceived(message.MethodReturnMessage(x[2], destination=':1.7').rawMessage)
         if ci >= 0 and subs[ci]['state'] == 'live':
-            if [x[0] for x in sent] == ['RemoveMatch']:
-                subs[ci]['state'] = 'removed'
-            else:
-                subs[ci]['state'] = 'unsettled'
+            # cancelSignalNotification returned and every request it sent is acknowledged: whatever the
+            # implementation does (remove locally at once, or on the acknowledgement), the subscription is
+            # removed now - a cancel that silently does nothing leaves a callback firing after its removal
+            subs[ci]['state'] = 'removed'
+            if [x[0] for x in sent] != ['RemoveMatch']:
                 ctx.stat('proxy:cancel-sent-no-removematch')      # engineering observation, not a property demand
         # after the acknowledgement: cancelled subscriptions are silent, the others still deliver
         for s_ in subs:
